@@ -150,3 +150,38 @@ func c18LongestUnit(c *core.Check) {
 	_, early := core.EveryIterationPasses(loop, func(ssa.Instruction) bool { return false })
 	r.Cond(len(early) == 0, key, p.Pos(loop.Header.Instrs[0].Pos()), "the loop examines every unit ("+nested+")", "the loop leaves at the first match although "+nested+" in the table: a length in the longer unit is read with the shorter one and the rest is not a number")
 }
+
+// c18ListSeparators (R17): white-space separated attribute values are split on runs of white space.  In package svg
+// no attribute text is split with strings.Split(text, " "): two spaces, a tab or a newline between the two words of
+// preserveAspectRatio are one separator (the second word, slice, was lost).
+func c18ListSeparators(c *core.Check) {
+	p := c.Prog
+	r := c.Rule("R17", "white space separates, whatever its length: package svg does not split text with strings.Split(text, \" \") (strings.Fields or a scanner is used instead)", 1)
+	n, bad := 0, 0
+	for _, fn := range p.FuncsOfPkg("svg") {
+		if fn.Blocks == nil {
+			continue
+		}
+		core.Instrs(fn, func(in ssa.Instruction) {
+			call, ok := in.(*ssa.Call)
+			if !ok {
+				return
+			}
+			callee := call.Call.StaticCallee()
+			if callee == nil || callee.Pkg == nil || callee.Pkg.Pkg.Path() != "strings" {
+				return
+			}
+			switch callee.Name() {
+			case "Split", "SplitN":
+				n++
+				if sep, ok := core.ConstStr(call.Call.Args[1]); ok && sep == " " {
+					bad++
+					r.Fail(fmt.Sprintf("%s | strings.%s on a single space #%d", core.FuncName(fn), callee.Name(), bad), p.Pos(call.Pos()), "the text is split on single spaces: two spaces, a tab or a newline between two words give an empty or a glued word")
+				}
+			case "Fields":
+				n++
+			}
+		})
+	}
+	r.OK("scan", "-", fmt.Sprintf("%d splits of text in package svg", n))
+}
